@@ -38,11 +38,19 @@ FILES = {}
 
 
 class FakeFile:
-    def __init__(self, name):
+    """A text file opened for writing.  Opened without an explicit encoding it uses the locale's encoding, of which only
+    the ASCII range is guaranteed (LC_ALL=C): writing anything else raises UnicodeEncodeError, as the real file would."""
+
+    def __init__(self, name, encoding=None, errors=None):
         self.name = name
+        self.encoding = encoding
+        self.errors = errors
         self.parts = []
 
     def write(self, t):
+        if self.encoding is None or self.encoding.lower().replace('-', '') in ('ascii', 'usascii'):
+            if self.errors in (None, 'strict'):
+                t.encode('ascii')
         self.parts.append(t)
 
     def __enter__(self):
@@ -53,9 +61,9 @@ class FakeFile:
         return False
 
 
-def fake_open(name, mode='r', *a, **k):
+def fake_open(name, mode='r', buffering=-1, encoding=None, errors=None, *a, **k):
     assert 'w' in mode
-    return FakeFile(str(name))
+    return FakeFile(str(name), encoding, errors)
 
 
 class FakeFolder:
@@ -114,18 +122,26 @@ def run_world(tests, rep2, buf=False):
     return o
 
 
+def _write(o):
+    try:
+        o.output.writeXMLReports()
+    except Exception as e:
+        return 'writing the reports raised %s: no (complete) report files' % type(e).__name__
+    return None
+
+
 def report(k0, k1, k2, rep2, e1, buf=False):
     global LAST
     ks = [pick(KINDS, k) for k in (k0, k1, k2)]
     rep2, buf = cb(rep2), cb(buf)
     e1 = ci(e1, 0, 3)
     with untraced():
-        tests = [mk('t0', ks[0]), mk('t1', ks[1], exc=e1), mk('t2', ks[2])]
+        tests = [mk('t0', ks[0]), mk('t1', ks[1], exc=e1), mk('t2', ks[2], idtext='runTest \xe9\u4e2d')]      # a test id outside ASCII
     R.TestResult._exc_info_to_string = lambda self, err, test: 'traceback'
     o = run_world(tests, rep2, buf)
-    o.output.writeXMLReports()
+    failed = _write(o)
     with untraced():
-        why = oracle(ks, rep2)
+        why = failed or oracle(ks, rep2)
     LAST = (tuple(W.KIND_NAMES[k] for k in ks), rep2, e1, why, tuple(sorted(FILES)), buf)
     return why is None
 
@@ -228,9 +244,9 @@ def doccases(kd0, kd1, kf, ku, rep2, buf, name_dots):
         tests = mk_doc_world(kd0, kd1, kf, name_dots) + [mk('t0', ku)]
     R.TestResult._exc_info_to_string = lambda self, err, test: 'traceback'
     o = run_world(tests, rep2, buf)
-    o.output.writeXMLReports()
+    failed = _write(o)
     with untraced():
-        why = doc_oracle((kd0, kd1, kf), ku, rep2, 'sample.v1.txt' if name_dots else 'sample.txt')
+        why = failed or doc_oracle((kd0, kd1, kf), ku, rep2, 'sample.v1.txt' if name_dots else 'sample.txt')
     LAST = (tuple(DOC_KINDS[k] for k in (kd0, kd1, kf)), W.KIND_NAMES[ku], rep2, buf, why, tuple(sorted(FILES)))
     return why is None
 
@@ -287,6 +303,121 @@ def doc_oracle(kds, ku, rep2, fname):
 def doccases_reach(*a):
     doccases(*a)
     return LAST[4] is None and len(LAST[5]) >= 3 and 'doctest-output-with-NUL-and-]]>' in LAST[0]
+
+
+# ------------------------------------------------------------------ reports of runs that use several processes
+
+class MemPath:
+    """pathlib.Path stand-in over the in-memory report files (runner.Path): the report directory of a run, shared by
+    the parent and every layer subprocess, as the real directory is."""
+
+    def __init__(self, p):
+        self.p = str(p)
+
+    def resolve(self):
+        return self
+
+    def mkdir(self, *a, **k):
+        pass
+
+    def __truediv__(self, other):
+        return MemPath(self.p.rstrip('/') + '/' + str(other))
+
+    def glob(self, pattern):
+        import fnmatch
+        pref = self.p.rstrip('/') + '/'
+        return [MemPath(f) for f in sorted(FILES) if f.startswith(pref) and fnmatch.fnmatch(f[len(pref):], pattern)]
+
+    def iterdir(self):
+        return self.glob('*')
+
+    def exists(self):
+        return self.p in FILES or any(f.startswith(self.p.rstrip('/') + '/') for f in FILES)
+
+    def is_dir(self):
+        return self.p not in FILES
+
+    def unlink(self, missing_ok=False):
+        if self.p not in FILES and not missing_ok:
+            raise FileNotFoundError(self.p)
+        FILES.pop(self.p, None)
+
+    def __str__(self):
+        return self.p
+
+    __fspath__ = __str__
+
+    def __ch_deep_realize__(self, memo):
+        return self
+
+
+XKINDS = [W.PASS, W.FAIL, W.ERROR, W.XPASS, W.SUBFAIL2]
+
+
+def xmlmodes(mode, ka, kb):
+    """--xml in runs that use several processes (layers resumed after a layer that cannot be torn down, -j N): every
+    process writes the reports of the tests it ran into the same directory; afterwards every test that passed appears
+    exactly once, every failure / error as a testcase of its own class, in well-formed files."""
+    global LAST
+    from vt import fullrun as FR
+    mode = pick(['seq', 'nie', 'j2', 'j3', 'j1'], mode)
+    ka, kb = pick(XKINDS, ka), pick(XKINDS, kb)
+    with untraced():
+        kinds = {'a0': W.PASS, 'a1': ka, 'b0': kb, 'b1': W.PASS, 'x0': W.PASS, 'u0': W.PASS}
+        world = FR.World(kinds, td={'A': 2} if mode == 'nie' else {}, order=['b0', 'a0', 'x0', 'u0', 'b1', 'a1'])
+        for t in world.tests:
+            type(t).id = real_id
+    FILES.clear()
+    saved = R.Path
+    R.Path = MemPath
+    try:
+        res = FR.run(world, mode, argv=['--xml', '/reports'])
+    finally:
+        R.Path = saved
+    with untraced():
+        why = None
+        if res.escaped or res.thread_exc:
+            why = 'exception %r / %r' % (res.escaped, res.thread_exc)
+        suites = {}
+        if why is None:
+            for fname, text in FILES.items():
+                try:
+                    root = RealET.fromstring(text)
+                except RealET.ParseError as e:
+                    why = 'report %s is not well-formed: %s' % (fname, e)
+                    break
+                if root.get('name') in suites:
+                    why = 'two report files for suite %s' % root.get('name')
+                    break
+                suites[root.get('name')] = root
+        if why is None:
+            for n, k in sorted(kinds.items()):
+                cls = 'w.T_' + n
+                root = suites.get(cls)
+                if root is None:
+                    why = 'test %s (%s) ran, but the report directory holds no report for %s: %r' % (n, W.KIND_NAMES[k], cls, sorted(FILES))
+                    break
+                cases = root.findall('testcase')
+                nf, ne = len(root.findall('testcase/failure')), len(root.findall('testcase/error'))
+                want_f = W.N_FAIL.get(k, 0)
+                want_e = W.N_ERR.get(k, 0) + (1 if k == W.XPASS else 0)
+                plain = [c for c in cases if c.find('failure') is None and c.find('error') is None]
+                if (len(plain), nf, ne) != (1 if k == W.PASS else 0, want_f, want_e):
+                    why = 'suite %s (%s): %d plain testcases, %d failures, %d errors' % (cls, W.KIND_NAMES[k], len(plain), nf, ne)
+                    break
+                if int(root.get('tests')) != len(cases) or int(root.get('failures')) != nf or int(root.get('errors')) != ne:
+                    why = 'suite %s: attributes tests/failures/errors do not equal the element counts' % cls
+                    break
+                if any(c.get('classname') != cls for c in cases):
+                    why = 'suite %s holds testcases of other classes' % cls
+                    break
+    LAST = ('xmlmodes', mode, W.KIND_NAMES[ka], W.KIND_NAMES[kb], why, tuple(sorted(FILES)), len(res.children))
+    return why is None
+
+
+def xmlmodes_reach(*a):
+    xmlmodes(*a)
+    return LAST[4] is None and LAST[6] >= 2 and len(LAST[5]) == 6
 
 
 # ------------------------------------------------------------------ characters
@@ -452,9 +583,9 @@ SPEC = {
     'property': 'C17',
     'encoded': ['zope.testrunner.formatter.XMLOutputFormattingWrapper.test_failure / test_error / test_success / _record / writeXMLReports',
                 'formatter.parse_unittest / parse_startup_failure / parse_doc_* / get_test_class_name', 'formatter.xml_safe',
-                'zope.testrunner.runner.run_tests', 'runner.TestResult.addSubTest / addError / addFailure / addUnexpectedSuccess / addExpectedFailure'],
-    'files': ['src/zope/testrunner/formatter.py', 'src/zope/testrunner/runner.py'],
-    'stubs': ['formatter.open -> in-memory capture', 'formatter.datetime / formatter.socket -> constants', 'report folder -> path-like fake',
+                'xmlmodes(): Runner.run / configure (--xml wrapper, report directory) in the parent and in loop-back children', 'zope.testrunner.runner.run_tests', 'runner.TestResult.addSubTest / addError / addFailure / addUnexpectedSuccess / addExpectedFailure'],
+    'files': ['src/zope/testrunner/formatter.py', 'src/zope/testrunner/runner.py', 'src/zope/testrunner/process.py'],
+    'stubs': ['formatter.open -> in-memory capture; a file opened without an explicit encoding accepts ASCII only (the locale encoding is not under the runner\'s control)', 'formatter.datetime / formatter.socket -> constants', 'report folder -> path-like fake (xmlmodes(): runner.Path -> in-memory directory shared by all processes of the run)',
               'chars(): formatter.ElementTree -> real Element/indent, tostring() records every string handed over for serialisation',
               'runner.time, runner.gc; unittest.TestResult._exc_info_to_string -> constant'],
     'assumptions': ['ElementTree escapes & < > " correctly and expat decides well-formedness (trusted stdlib)',
@@ -477,6 +608,13 @@ SPEC = {
          'reach': 'chars_reach', 'reach_bounds': {'quick': 'n == 1 and 0 <= i < 3 and j == 0 and where == 0 and kind == 0', 'thorough': 'n == 1 and 0 <= i < 3 and j == 0 and where == 0 and kind == 0'},
          'timeout': {'quick': 300, 'thorough': 1500},
          'fidelity': [dict(n=1, i=0, j=0, where=0, kind=0), dict(n=2, i=32, j=20, where=1, kind=1), dict(n=2, i=10, j=11, where=2, kind=2), dict(n=0, i=0, j=0, where=0, kind=0)]},
+        {'name': 'xmlmodes', 'fn': 'xmlmodes', 'params': [('mode', 'int'), ('ka', 'int'), ('kb', 'int')], 'call': 'mode, ka, kb',
+         'bounds': {'quick': '0 <= mode <= 4 and 0 <= ka < %d and 0 <= kb < %d and kb <= 1 and (mode <= 2 or ka <= 1)' % (len(XKINDS), len(XKINDS)),
+                    'thorough': '0 <= mode <= 4 and 0 <= ka < %d and 0 <= kb < %d' % (len(XKINDS), len(XKINDS))},
+         'slices': {'quick': ['mode == %d' % m for m in range(5)], 'thorough': ['mode == %d and ka == %d' % (m, k) for m in range(5) for k in range(len(XKINDS))]},
+         'reach': 'xmlmodes_reach', 'reach_bounds': {'quick': 'mode == 2 and ka == 1 and kb == 0', 'thorough': 'mode == 2 and ka == 1 and kb == 0'},
+         'timeout': {'quick': 300, 'thorough': 1500},
+         'fidelity': [dict(mode=1, ka=1, kb=2), dict(mode=2, ka=4, kb=3), dict(mode=0, ka=0, kb=0)]},
         {'name': 'doccases', 'fn': 'doccases',
          'params': [('kd0', 'int'), ('kd1', 'int'), ('kf', 'int'), ('ku', 'int'), ('rep2', 'bool'), ('buf', 'bool'), ('name_dots', 'bool')],
          'call': 'kd0, kd1, kf, ku, rep2, buf, name_dots',
